@@ -16,7 +16,7 @@
    ..._partial are full statements about the handlers (all states) whose step case is not yet part of the trace proof. *)
 From Coq Require Import List NArith ZArith Bool.
 Import ListNotations.
-Require Import Base.Wire Base.PyStr C10.Model C10.Lemmas C10.Handlers C10.SrvLemmas C10.Feed C10.Inv C10.Sim C10.Agree C10.Step C10.Keys C10.Trace.
+Require Import Base.Wire Base.PyStr C10.Model C10.Lemmas C10.Handlers C10.SrvLemmas C10.Feed C10.Inv C10.Sim C10.Agree C10.Step C10.Keys C10.Trace C10.Boundary.
 
 (* ---- refutations of the simulation: concrete conformant histories outside [dom] after which the bot model
         disagrees with the server (replayed on the implementation: findings F10, F10b, F10c) ---- *)
@@ -200,3 +200,23 @@ Theorem C10_simulation_from_related :
   Inv s b -> Keys.skeys s -> dom acts = true -> all_agree nick0 prefix0 true uh s b acts = true.
 Proof. intros. apply trace_inv; assumption. Qed.
 Print Assumptions C10_simulation_from_related.
+
+(* ---- channel names: what [dom]'s reference server accepts is ircutils.isChannel (regenerated table T03: CHANTYPES,
+        CHANNELLEN, the whitespace set) plus "no ':'"; the length bound is INCLUSIVE; and IrcState.doMode applies a MODE
+        exactly when the target is such a name (an off-by-one in the bound makes every MODE on a channel of exactly
+        CHANNELLEN characters be dropped: the seeded change C10_6). ---- *)
+Theorem C10_channel_name_bound :
+  (forall s, C03.Model.isChannel s = true -> (length s <= gen.T03.CHANNELLEN)%nat)
+  /\ (forall s, nonempty s = true -> mem C03.Model.COMMA s = false -> mem C03.Model.BEL s = false ->
+       C03.Model.hd_in gen.T03.CHANTYPES s = true -> C03.Model.one_word s = true ->
+       length s = gen.T03.CHANNELLEN -> C03.Model.isChannel s = true)
+  /\ (forall s, (gen.T03.CHANNELLEN < length s)%nat -> C03.Model.isChannel s = false).
+Proof. split; [exact isChannel_len|split; [exact isChannel_at_max|exact isChannel_too_long]]. Qed.
+Print Assumptions C10_channel_name_bound.
+
+Theorem C10_mode_applied_iff_channel :
+  (forall p c rest b, C03.Model.isChannel c = true -> idict_has c (b_chans b) = true ->
+     st_doMode (Msg p str_MODE (c :: rest)) b = chan_upd c (fun bc => chan_doMode bc rest) b)
+  /\ (forall p c rest b, C03.Model.isChannel c = false -> st_doMode (Msg p str_MODE (c :: rest)) b = b).
+Proof. split; [exact doMode_applied|exact doMode_dropped]. Qed.
+Print Assumptions C10_mode_applied_iff_channel.
